@@ -888,6 +888,43 @@ def run_guards(ctx, prog, guards):
                               "becomes reachable" % bad[0]["what"][:200])
             else:
                 rep.ok("PANIC-GUARD", "best_local_announce_message_for_bmca", "guard:master_only_excluded")
+        elif g == "reverse_index_removal":
+            # ForeignMasterList::step_age indexes and removes inside an index loop: sound only when the loop runs
+            # over (0..len).rev() and the only length change is remove() at the current index
+            try:
+                b = prog.one(name="step_age", self_name="ForeignMasterList", crate="statime-lib")
+                pv = df.Prov(b)
+                iters, removes, other_mut = [], [], []
+                for bi, blk in enumerate(b.blocks):
+                    t = blk["term"]
+                    if t["k"] != "call":
+                        continue
+                    c = mir.callee_of(t)
+                    if c is None:
+                        continue
+                    args = [df.canon(pv.op_tree(a), b) for a in t["args"]]
+                    if c["name"] == "into_iter":
+                        iters.append(args[0])
+                    elif c["name"] == "remove":
+                        removes.append(args)
+                    elif c["name"] in ("push", "try_push", "insert", "try_insert", "pop", "swap_remove", "truncate",
+                                       "clear", "retain", "drain", "swap_pop", "pop_at", "extend"):
+                        other_mut.append(c["name"])
+                import re as _re
+                good_iter = len(iters) == 1 and _re.fullmatch(
+                    r"rev\(Range\{start: 0, end: len\((self\.foreign_masters)\)\}\)", iters[0]) is not None
+                good_rm = all(a[0] == "self.foreign_masters" and a[1] == "next(iter)" for a in removes)
+                if good_iter and good_rm and not other_mut:
+                    rep.ok("PANIC-GUARD", b.key, "guard:reverse_index_removal",
+                           detail={"iterator": iters[0], "removals": len(removes)})
+                else:
+                    rep.violation("PANIC-GUARD", b.key, "guard:reverse_index_removal",
+                                  "the index loop in ForeignMasterList::step_age is no longer `(0..len).rev()` with removal "
+                                  "only at the current index (iterator %s, removals %s, other length changes %s): after a "
+                                  "removal a later index can be >= len and `foreign_masters[i]` / remove(i) panics" %
+                                  (iters, removes, other_mut), where=b.loc())
+            except AnchorMissing as e:
+                rep.anchor_missing("PANIC-GUARD", str(e))
         else:
             rep.violation("PANIC-GUARD", "<table>", "guard:%s" % g, "unknown guard name in c03_sites.txt")
 
